@@ -149,7 +149,7 @@ pub fn violator(src: &mut Src, which: &str) -> Case {
 const TOKENS: &[&str] = &[
     "@export", "@string", "@char", "@no_skip_ws", "@position", "@memoize", "@leftrec", "@check(", "@extern(", "->", "::", ")", "(", "[", "]",
     "{", "}", "}+", "|", "!", "&", ">", "$", ";", "=", ":", "@:", "*", "..", "'", "\"", "i'", "\\", "\\u{", "\\x", "\\U00", "#", "\n", " ", "+",
-    "'a'", "'a'..'z'", "A", "char", "Whitespace", "x:", "é", "🙂", "\0", "\u{feff}",
+    "'a'", "'a'..'z'", "A", "char", "Whitespace", "x:", "é", "🙂", "\0", "\u{feff}", "I'", "I\"", "\\q", "\\U", "\\X41", "@CHECK(", "@Export", "()", "(:)",
 ];
 
 fn mutate_text(src: &mut Src, text: &str) -> String {
@@ -157,7 +157,15 @@ fn mutate_text(src: &mut Src, text: &str) -> String {
     let n_edits = 1 + src.weighted(&[6, 3, 2, 1]);
     for _ in 0..n_edits {
         let n = chars.len();
-        match src.pick(6) {
+        match src.pick(7) {
+            6 if n > 0 => {
+                // flip the case of one ASCII letter (keywords, markers and escape letters are case sensitive)
+                let start = src.pick(n);
+                if let Some(i) = (start..n).chain(0..start).find(|i| chars[*i].is_ascii_alphabetic()) {
+                    let c = chars[i];
+                    chars[i] = if c.is_ascii_uppercase() { c.to_ascii_lowercase() } else { c.to_ascii_uppercase() };
+                }
+            }
             0 if n > 0 => {
                 let i = src.pick(n);
                 chars.remove(i);
